@@ -94,6 +94,15 @@ class C01(Prop):
             case = {"k": "codec", "bulk": rng.random() < 0.5, "events": evs, "off": rng.choice([0, 0, 60, -300, 345, 840, -840, 765])}
             for be in storelib.BACKENDS:
                 out.append(("codec", {**case, "backend": be}))
+        # data values that Python's == cannot tell apart (1, True, 1.0; 0, False) next to each other in one call
+        JT = storegen.LABELS_JSON_TYPES
+        for _ in range(ctx.pick(40, 600)):
+            n = rng.choice([2, 3, 5])
+            first = rng.randrange(len(JT))
+            evs = [[None, T0 + k * 1000, 1000, JT[(first + k * rng.choice([1, 1, 2])) % len(JT)]] for k in range(n)]
+            case = {"k": "codec", "bulk": rng.random() < 0.7, "events": evs, "off": 0}
+            for be in storelib.BACKENDS:
+                out.append(("codec-json-types", {**case, "backend": be}))
         # directed at the region the float-encoding proof has to exclude: instants in 2038..2041 whose
         # double encoding (T / 1e6) * 1e6 is off by a quarter microsecond, ending beyond 2^51 µs
         for _ in range(ctx.pick(150, 5000)):
